@@ -34,7 +34,7 @@ RULE = ("one run = program (1-2 files, 1-4 tests, 1-5 ordinary sites with arbitr
         "alignment, RaisesEq, unorderable bound, BadCopy, second operation on one snapshot, nested snapshot deleted / replaced / kept by the alignment, "
         "dict sub-snapshot with nested snapshot) x approved set x executor; distinct = (trouble kinds, approved set, executor, position class); "
         "non-trivial = at least one trouble event executed before an ordinary test")
-RULE += " Dimensions added while testing against seeded changes: leftover temp files of a killed earlier session in the durable start state; test files with a UTF-8 byte order mark; a project function of its own named external; short-report sessions; sessions started outside the project; outsourced externals."
+RULE += " Dimensions added while testing against seeded changes: leftover temp files of a killed earlier session in the durable start state; test files with a UTF-8 byte order mark; a project function of its own named external; short-report sessions; sessions started outside the project; outsourced externals; values of one type whose repr is code for some instances only."
 ASSUMPTIONS = ["trouble sites themselves are exempt from the value clause", "the documented 'no test_*() functions' usage error of run_inline is not reachable (every program has tests)"]
 REAL_VS_STUB = {
     "real": ["inline_snapshot library / plugin from /repo/src", "pytest session-finish hook (plugin executor)", "Example.run_inline", "black"],
